@@ -90,6 +90,7 @@ class Run:
         self.knobs = knobs if knobs is not None else profile.draw_knobs(random.Random("knobs-%r" % (seed,)))
         self.files = {}
         self.pool = {}
+        self.link_handles = set()
         self.ops = []
         self.trace = []
         self.stats = Counter()
@@ -131,14 +132,28 @@ class Run:
 
     def drop_handles(self, fs=None):
         self.pool.clear()
+        self.link_handles.clear()
 
     # -------------------------------------------------------------------- handles
     CONT = {"block": "blocks", "group": "groups", "array": "data_arrays", "frame": "data_frames",
             "tag": "tags", "mtag": "multi_tags", "source": "sources", "section": "sections",
             "prop": "props", "feature": "features"}
 
-    def remember(self, m, h):
+    def remember(self, m, h, via_link=False):
         self.pool.setdefault(id(m), []).append(h)
+        if via_link:
+            self.link_handles.add(id(h))
+
+    def link_path_changed(self, owner=None, emptied=False):
+        """Called by ops that remove or replace a link (or delete a linking entity).
+        Known finding F14 (stale handles): when masked, handles that were resolved through a
+        link path, and handles of an owner whose link list was emptied, are not used again."""
+        if self.profile.masked("stale_handle"):
+            for k in list(self.pool):
+                self.pool[k] = [h for h in self.pool[k] if id(h) not in self.link_handles]
+            if owner is not None and emptied:
+                self.pool.pop(id(owner), None)
+            self.stats["masked:stale_handle"] += 1
 
     def siblings(self, m):
         return getattr(m.parent_, self.CONT[m.kind])
@@ -206,7 +221,7 @@ class Run:
                                    "%s.%s -> %r" % (owner.kind, attr, e))
                 if hid != m.id:
                     self.violation("lookup_wrong_entity", k, "link:" + attr, "got %s expected %s" % (hid, m.id))
-                self.remember(m, h)
+                self.remember(m, h, via_link=True)
                 return h
             via = 1
         parent = self.R(m.parent_, 4 if via in (6, 7) else 0)
